@@ -233,6 +233,10 @@ def check_c07(tier):
     meta = C.run_tlc("History", cfg, workers=12, timeout=7200)
     if not meta["ok"]:
         raise C.ToolError("TLC on History/%s failed: %s" % (cfg, meta["errors"]))
+    cfg_scan = cfg.replace("c07_", "c07scan_")
+    meta_scan = C.run_tlc("History", cfg_scan, workers=12, timeout=7200)
+    if not meta_scan["ok"]:
+        raise C.ToolError("TLC on History/%s failed: %s" % (cfg_scan, meta_scan["errors"]))
     C.build_harness()
     root = os.path.join(C.BUILD, "ws", "c07-%d" % os.getpid())
     shutil.rmtree(root, ignore_errors=True)
@@ -275,29 +279,41 @@ def check_c07(tier):
             return {"op": "evict", "paths": [p]}
         raise C.ToolError("unknown event %r" % ev)
 
-    def gen():
-        for n, case in enumerate(C.tlc_cases(meta)):
+    def ev_ops_s(ev, cur):
+        if ev["t"] == "scan":
+            # the real scan_workspace over the on-disk tree (phase 1 in parallel, then the import phase)
+            return {"op": "scan", "root": root + "/R"}
+        return ev_ops(ev, cur)
+
+    def gen(m, start_scanned, base):
+        for n, case in enumerate(C.tlc_cases(m)):
             if case["kind"] != "query":
                 continue
             hist = case["hist"]
-            ops = [{"op": "analyze", "path": uni.paths[f], "text": disk_r[f].text, "fresh": True} for f in scan_order]
+            first = [{"op": "analyze", "path": uni.paths[f], "text": disk_r[f].text, "fresh": True} for f in scan_order] \
+                if start_scanned else []
+            ops = list(first)
             cur = dict(disk_r)
             for ev in hist:
-                ops.append(ev_ops(ev, cur))
+                ops.append(ev_ops_s(ev, cur))
             if any(o is None for o in ops):
                 continue   # a navigation query for a name the test file does not use right now
             n_main = len(ops)
             ops.append({"op": "newdb"})
-            ops += [{"op": "analyze", "path": uni.paths[f], "text": disk_r[f].text, "fresh": True} for f in scan_order]
+            ops += first
             cur2 = dict(disk_r)
             for ev in hist[:-1]:
-                if ev["t"] == "edit":
-                    ops.append(ev_ops(ev, cur2))
-            ops.append(ev_ops(hist[-1], cur2))
+                if ev["t"] in ("edit", "scan"):
+                    ops.append(ev_ops_s(ev, cur2))
+            ops.append(ev_ops_s(hist[-1], cur2))
             if any(o is None for o in ops):
                 continue
-            ctx[n] = (case, n_main, cur)
-            yield {"id": n, "ops": ops}
+            ctx[base + n] = (case, n_main, cur)
+            yield {"id": base + n, "ops": ops}
+
+    def gen_all():
+        yield from gen(meta, True, 0)
+        yield from gen(meta_scan, False, 10 ** 7)
 
     def norm(ev, ans, cur):
         if isinstance(ans, dict) and ("panic" in ans or "tool_error" in ans):
@@ -320,7 +336,7 @@ def check_c07(tier):
         return a
 
     replayed = 0
-    for res in C.run_harness(gen()):
+    for res in C.run_harness(gen_all()):
         case, n_main, cur = ctx.pop(res["id"])
         replayed += 1
         hist = case["hist"]
@@ -328,7 +344,7 @@ def check_c07(tier):
         warm = norm(ev, res["res"][n_main - 1], cur)
         cold = norm(ev, res["res"][-1], cur)
         V.count()
-        if any(e["t"] != "edit" for e in hist[:-1]):
+        if any(e["t"] not in ("edit", "scan") for e in hist[:-1]):
             V.nontriv(json.dumps(hist))
         if warm == cold:
             continue
@@ -342,41 +358,6 @@ def check_c07(tier):
             V.violation(ex, "a warm / closed / evicted server answers differently from a cold twin (not predicted by the model)")
         if res["id"] % 8000 == 0:
             V.sample({"hist": hist})
-    # ---- queries answered BEFORE the workspace scan reaches the files (a document opened and queried right after
-    # initialize): the real scan_workspace then runs over the same on-disk tree; the final answer must be the one
-    # an unqueried server gives after its scan (spec: the scan's result does not depend on earlier queries, since
-    # every Query action leaves the index unchanged)
-    ctx2 = {}
-
-    def gen_prescan():
-        for n, case in enumerate(C.tlc_cases(meta)):
-            if case["kind"] != "query":
-                continue
-            hist = case["hist"]
-            if any(e["t"] == "edit" for e in hist) or len(hist) < 2:
-                continue
-            cur = dict(disk_r)
-            pre = [ev_ops(ev, cur) for ev in hist[:-1]]
-            fin = ev_ops(hist[-1], cur)
-            if fin is None or any(o is None for o in pre):
-                continue
-            ops = pre + [{"op": "scan", "root": root + "/R"}, fin, {"op": "newdb"}, {"op": "scan", "root": root + "/R"}, fin]
-            ctx2[n] = (case, len(pre) + 1, cur)
-            yield {"id": n, "ops": ops}
-
-    for res in C.run_harness(gen_prescan()):
-        case, i_fin, cur = ctx2.pop(res["id"])
-        replayed += 1
-        hist = case["hist"]
-        ev = hist[-1]
-        queried = norm(ev, res["res"][i_fin], cur)
-        unqueried = norm(ev, res["res"][-1], cur)
-        V.count()
-        V.nontriv("prescan" + json.dumps(hist))
-        if queried != unqueried:
-            V.violation({"hist_before_scan": hist[:-1], "final_query": ev, "queried_server": queried, "unqueried_server": unqueried,
-                         "disk": {uni.paths[s]: disk_r[s].text for s in disk_r}},
-                        "queries answered before the workspace scan change an answer given after it")
     if not V.samples:
         V.sample({"note": "see rule"})
     shutil.rmtree(root, ignore_errors=True)
@@ -385,8 +366,9 @@ def check_c07(tier):
     n_ev = tracecheck.validate_random_histories(V, 150 if tier == "quick" else 3000, 14 if tier == "quick" else 18, "c07")
     V.count(n_ev)
     replayed += n_ev
-    cov = {"states": meta["distinct"], "transitions": meta["transitions"], "traces_validated_against_impl": replayed,
-           "tlc": {"module": "History", "cfg": cfg, "wall_s": meta["wall_s"], "cached": meta.get("cached", False)},
+    cov = {"states": meta["distinct"] + meta_scan["distinct"], "transitions": meta["transitions"] + meta_scan["transitions"],
+           "traces_validated_against_impl": replayed, "scan_event_histories": meta_scan["distinct"],
+           "tlc": {"module": "History", "cfg": cfg + " + " + cfg_scan, "wall_s": meta["wall_s"], "cached": meta.get("cached", False)},
            "exhaustive": True}
     return V.finish(
         coverage_extra=cov,
@@ -394,7 +376,8 @@ def check_c07(tier):
              "resolution, imported-fixture lookup), closes and evictions of unmodified documents over files that "
              "exist on disk, and checks WarmEqualsColdRepaired / RepairedHistoryEqualsR on the repaired model; every "
              "history ending in a query is executed on a real long-lived database and on a cold twin that received "
-             "only the edits; non-trivial = an earlier query/close/evict precedes the final query",
+             "only the edits; a second configuration starts UNSCANNED and makes the workspace scan (the real scan_workspace "
+             "over the on-disk tree) one event of the history, so documents are edited and queried before the scan reaches them; non-trivial = an earlier query/close/evict precedes the final query",
         assumptions=["eviction is emulated for a chosen victim through the pub maps exactly as mod.rs:336-343 (the real trigger needs > 2000 files; exercised in the thorough tier)",
                      "close/evict only of documents whose buffer equals the disk content (the statement's 'unmodified document')"])
 
